@@ -518,4 +518,40 @@ theorem toStr_finite {s : Mpf} {dps : Nat} {ln2 ln10 : Mpf} (strip : Bool) (mn m
   rw [if_neg hman]
   simp only [h, if_neg hdps]
 
+
+/-! ### a Bool fold over a range with logarithmic recursion depth (for `decide +kernel`) -/
+
+/-- `P` holds on `[lo, lo+n)`, checked by halving; `false` if the fuel does not suffice -/
+def allRange (P : Nat → Bool) : Nat → Nat → Nat → Bool
+  | 0, lo, n => n == 0 || (P lo && n == 1)
+  | f+1, lo, n =>
+    if n = 0 then true
+    else if n = 1 then P lo
+    else allRange P f lo (n / 2) && allRange P f (lo + n / 2) (n - n / 2)
+
+theorem allRange_sound (P : Nat → Bool) (f lo n : Nat) (h : allRange P f lo n = true) :
+    ∀ p, lo ≤ p → p < lo + n → P p = true := by
+  induction f generalizing lo n with
+  | zero =>
+    intro p h1 h2
+    simp only [allRange, Bool.or_eq_true, beq_iff_eq, Bool.and_eq_true] at h
+    rcases h with h | ⟨hp, hn⟩
+    · omega
+    · have : p = lo := by omega
+      rw [this]; exact hp
+  | succ f ih =>
+    intro p h1 h2
+    unfold allRange at h
+    by_cases h0 : n = 0
+    · omega
+    · rw [if_neg h0] at h
+      by_cases h1' : n = 1
+      · rw [if_pos h1'] at h
+        have : p = lo := by omega
+        rw [this]; exact h
+      · rw [if_neg h1', Bool.and_eq_true] at h
+        by_cases hp : p < lo + n / 2
+        · exact ih lo (n / 2) h.1 p h1 hp
+        · exact ih (lo + n / 2) (n - n / 2) h.2 p (by omega) (by omega)
+
 end Mp
